@@ -25,7 +25,8 @@ KNOWN = 'C08-list-append-in-resolution-order'
 GRAMMAR = """
 Model: (first+=[Obj][','] '!')? objs+=Obj users+=User;
 Obj: 'obj' name=ID;
-User: 'user' name=ID ('refs' refs+=[Obj] ':')? ('one' one=[Obj] ':')? ('more' more+=[Obj][','])? ';';
+User: 'user' name=ID ('refs' refs+=[Obj] ':')? ('one' one=[Obj] ':')? ('more' more+=[Obj][','])?
+      ('alt' ('first' alt=[Obj] | 'none') 'then' alt=[Obj])? ';';
 """
 CASES = [
     # (model text, description)
@@ -37,6 +38,8 @@ CASES = [
     ("obj a obj b obj c user u refs a b a : more c, a, c ;", 'non-adjacent repeats of a name within one list'),
     # a list of forward references that starts with the very first character of the text
     ("c, a, b ! obj a obj b obj c user u refs b a : ;", 'a list starting at offset 0'),
+    # a list built by repeated plain assignments, one of them in a branch of a choice
+    ("obj a obj b user u alt first b then a ; user v alt none then a ;", 'list of repeated = assignments'),
 ]
 
 
@@ -167,8 +170,8 @@ def make_user_class():
         more = []
         one = None
 
-        def __init__(self, parent=None, name=None, refs=None, one=None, more=None):
-            self.parent, self.name, self.one = parent, name, one
+        def __init__(self, parent=None, name=None, refs=None, one=None, more=None, alt=None):
+            self.parent, self.name, self.one, self.alt = parent, name, one, alt
             if refs is not None:
                 self.refs = refs
             if more is not None:
@@ -211,8 +214,8 @@ def run_case(ci, max_rounds, timeout_ms):
             return ('bad', [{'error': '%s: %s' % (type(e).__name__, e)}], sorted(sched))
         bad = first_list_problems(m, text)
         for u in m.users:
-            for an in ('refs', 'more'):
-                got = [o.name for o in getattr(u, an)]
+            for an in ('refs', 'more', 'alt'):
+                got = names_of(getattr(u, an))
                 exp = expected_names(text, u.name, an)
                 if got != exp:
                     bad.append({'user': u.name, 'attr': an, 'got': got, 'expected': exp})
@@ -224,6 +227,14 @@ def run_case(ci, max_rounds, timeout_ms):
     if not any(o[0] in ('ok', 'bad') for o in outs):
         raise RuntimeError('vacuous case (no schedule loads): %r -> %r' % (text, outs[:1]))
     return ctx, outs
+
+
+def names_of(v):
+    """names of the targets of a reference list (a list attribute that was collapsed to one object is reported
+    as that object's name, not as a list)"""
+    if v is None:
+        return []
+    return [o.name for o in v] if isinstance(v, list) else getattr(v, 'name', v)
 
 
 def first_list_problems(m, text):
@@ -243,8 +254,10 @@ def expected_names(text, user, attr):
     j = i + 2
     cur = None
     while toks[j] != ';':
-        if toks[j] in ('refs', 'one', 'more'):
+        if toks[j] in ('refs', 'one', 'more', 'alt'):
             cur = toks[j]
+        elif toks[j] in ('first', 'none', 'then'):
+            pass
         elif cur == attr:
             out.append(toks[j])
         j += 1
@@ -307,8 +320,8 @@ def replay_schedule(ci, schedule):
         return True, [{'error': '%s: %s' % (type(e).__name__, e)}]
     bad = first_list_problems(m, text)
     for u in m.users:
-        for an in ('refs', 'more'):
-            got = [o.name for o in getattr(u, an)]
+        for an in ('refs', 'more', 'alt'):
+            got = names_of(getattr(u, an))
             exp = expected_names(text, u.name, an)
             if got != exp:
                 bad.append({'user': u.name, 'attr': an, 'got': got, 'expected': exp})
@@ -371,7 +384,7 @@ def main():
     import textx.model as M
     chk = Check(PROP, 'exploration')
     quick = chk.tier == 'quick'
-    cases = [0, 1, 2, 5, 6] if quick else list(range(len(CASES)))
+    cases = [0, 1, 2, 5, 6, 7] if quick else list(range(len(CASES)))
     max_rounds = 2 if quick else 3
     timeout_ms = 20000
     items = [(ci, max_rounds, timeout_ms) for ci in cases]
